@@ -56,7 +56,7 @@ struct Scenario {
 
 type Session = ServerSession<DbHandler>;
 
-fn end_event(sink: &Sink, r: Result<RequestError, String>) {
+fn end_event(sink: &Sink, r: Result<RequestError, String>, unread: usize) {
     match r {
         Ok(err) => {
             let (reason, detail) = match err {
@@ -68,7 +68,7 @@ fn end_event(sink: &Sink, r: Result<RequestError, String>) {
                 RequestError::Shutdown => ("Shutdown", String::new()),
                 other => ("Other", format!("{other:?}")),
             };
-            sink.emit(json!({"e":"end","reason":reason,"detail":detail}));
+            sink.emit(json!({"e":"end","reason":reason,"detail":detail,"unread":unread}));
         }
         Err(p) => sink.emit(json!({"e":"panic","msg":p})),
     }
@@ -187,12 +187,12 @@ async fn run_scenario(sc: &Scenario, sink: &Sink) {
             match (&mut task).await {
                 Ok((s, r)) => {
                     parked = Some(s);
-                    end_event(sink, Ok(r));
+                    end_event(sink, Ok(r), ioh.pending_bytes());
                 }
                 Err(e) => {
                     dead = true;
                     let msg = take_panic().unwrap_or_else(|| format!("{e}"));
-                    end_event(sink, Err(msg));
+                    end_event(sink, Err(msg), 0);
                 }
             }
         }
@@ -215,10 +215,10 @@ async fn run_scenario(sc: &Scenario, sink: &Sink) {
             return;
         }
         match (&mut task).await {
-            Ok((_s, r)) => end_event(sink, Ok(r)),
+            Ok((_s, r)) => end_event(sink, Ok(r), ioh.pending_bytes()),
             Err(e) => {
                 let msg = take_panic().unwrap_or_else(|| format!("{e}"));
-                end_event(sink, Err(msg));
+                end_event(sink, Err(msg), 0);
             }
         }
         sink.emit(json!({"e":"q","zero_space_reads":ioh.zero_space_reads()}));
